@@ -115,6 +115,11 @@ def run_case(ctx, rng, index, casedir):
     else:
         fg = OC.parse_gfa_outputs(full)
         fc = OC.parse_csv_outputs(full)
+        # whatever is written consists of segments of the input graph (also when nothing could be ordered)
+        for key, (og, _txt) in fg.items():
+            foreign = sorted(set(og.segments) - set(g.nodes))[:5]
+            if foreign:
+                viol.append({"kind": "foreign_segments_in_output", "msg": f"output {key} contains segments that are not in the input graph: {foreign}", "witness": wit})
         # nothing for non-chain components
         for c in bad:
             if by_chrom and (c in fg or c in fc):
